@@ -23,6 +23,7 @@ MUTATIONS = {
         ('richerror', 'tonic-types/src/richer_error/std_messages/quota_failure.rs', r'"type\.googleapis\.com/google\.rpc\.QuotaFailure"', '"type.googleapis.com/google.rpc.ErrorInfo"', 'two kinds share a type URL'),
         ('richerror', 'tonic-types/src/richer_error/mod.rs', r'if any\.type_url\.as_str\(\) == DebugInfo::TYPE_URL \{', 'if any.type_url.as_str() != DebugInfo::TYPE_URL {', 'getter looks at the wrong details'),
         ('richerror', 'tonic-types/src/richer_error/mod.rs', r'ErrorDetail::ResourceInfo\(res_info\) => \{\s*conv_details\.push\(res_info\.into_any\(\)\);', 'ErrorDetail::ResourceInfo(res_info) => {\n                    let _ = res_info;', 'a list element is not written'),
+        ('richerror', 'tonic-types/src/richer_error/std_messages/retry_info.rs', r'if delay > RetryInfo::MAX_RETRY_DELAY \{', 'if delay < RetryInfo::MAX_RETRY_DELAY {', 'RetryInfo::new clamps the wrong side'),
         ('richerror', 'tonic-types/src/richer_error/std_messages/debug_info.rs', r'stack_entries: debug_info\.stack_entries,', 'stack_entries: Vec::new(),', 'stack entries lost'),
     ],
     'C14': [
